@@ -212,7 +212,10 @@ inline int harness_main(Harness &h, int argc, char **argv) {
       S.violations++; S.violation_classes[o.cls]++;
       // gate (a): same plan again in this process must give the same history
       Outcome o2 = h.execute(p);
-      if (!o2.violation || o2.cls != o.cls || o2.hash != o.hash) {
+      // the violation class must reproduce; a differing history hash alone (state kept by the library across calls in this
+      // process is itself a way to break determinism properties) is recorded but does not discard the finding
+      if (o2.violation && o2.cls == o.cls && o2.hash != o.hash) { fprintf(out, "H %llu %s first=%016llx second=%016llx\n", (unsigned long long)seed, jesc(o.cls).c_str(), (unsigned long long)o.hash, (unsigned long long)o2.hash); fflush(out); }
+      if (!o2.violation || o2.cls != o.cls) {
         S.nondet++;
         fprintf(out, "N %llu %s first=%016llx second=%016llx\n", (unsigned long long)seed, jesc(o.cls).c_str(), (unsigned long long)o.hash, (unsigned long long)o2.hash);
         fflush(out);
